@@ -239,6 +239,9 @@ def map_flow_b(ctx, exe, plans):
         rc, out, err = run_cmap(exe, "\n".join(keydefs) + "\nL %s %d %s\n" % (trace, initcap, " ".join(ops)))
         if rc == 3 and "SEARCH-FAILED" in err:
             raise vlib.MachineryError("cannot engineer colliding keys with the real hash function: " + err[-300:])
+        keyhex = [l.split()[2] for l in out.splitlines() if l.startswith("S ") and not l.split()[2].startswith("(")]
+        if len(set(keyhex)) != len(keyhex):
+            raise vlib.MachineryError("plan %s: two key ids were given identical bytes (harness defect)" % name)
         if rc != 0 or "L ok" not in out:
             with _LOCK:
                 ctx.violation(("map:hang:history:" if "HANG" in out[-40:] else "map:crash:history:") + name, "map.c harness died on a long history rc=%s: %s" % (rc, err[-800:]), {"plan": name})
@@ -299,7 +302,7 @@ def map_plans(ctx):
     if not ctx.quick:
         n = 1000
         defs = ["B %d 1000000 %d %x %x" % (0, 99, 0xf, 5)] + \
-               ["S %d %s %x %x" % (i, ("z%d" % i).encode().hex(), 0x3ffff, 0x12345) for i in range(1, n)]
+               ["S %d %s %x %x" % (i, ("z%d_" % i).encode().hex(), 0x3ffff, 0x12345) for i in range(1, n)]
         plans.append(("deep", 8, n, 100000, defs, 0.02, 0.0))
     return plans
 
@@ -901,7 +904,12 @@ def run(ctx):
             r = ctx.tlc_must_pass(spec, cfg, workers=6, coverage=True, timeout=1200, collect="VCASE ", on_line=lambda x: None, **kw)
             # TLC prints <action>: <distinct states found>:<states generated>; with a VIEW (Map) read-only actions find
             # no new distinct state, so "taken" is judged on the generated count
-            untaken = [a for a, (found, gen) in r.coverage.items() if gen == 0]
+            import re
+            cov = dict(r.coverage)
+            for m in re.finditer(r"^<(\w+) line \d+, col \d+ to line \d+, col \d+ of module (\w+) \((\d+) \d+ \d+ \d+\)>: (\d+):(\d+)", r.out, re.M):
+                cov["%s@%s:%s" % (m.group(1), m.group(2), m.group(3))] = (int(m.group(4)), int(m.group(5)))   # disjuncts of a Next without own name
+            r.coverage = cov
+            untaken = [a for a, (found, gen) in r.coverage.items() if gen == 0 and a.split("@")[0] not in ("Turn",)]   # Turn: Deep only
             ctx.cov.setdefault("untaken_actions", []).extend(untaken)
             ctx.cov.setdefault("actions_taken", {}).update({a: gen for a, (found, gen) in r.coverage.items()})
             if untaken:
